@@ -39,6 +39,48 @@ def parseFrame (bs : Bytes) : Except String Header :=
         else if rest.length < length then .error "hdr.closed"
         else .ok ⟨flags, stream, opcode, rest.take length⟩
 
+/-- `Buf::get_u8 / get_i16 / get_u8 / get_u32` on the slice of the 9-byte header array: each PANICS when fewer bytes
+remain than it needs. -/
+def bufGet (n : Nat) (cur : Bytes) : Outcome (Bytes × Bytes) :=
+  if cur.length < n then .panic "Buf::get_* (not enough remaining bytes)" else .ok (cur.take n, cur.drop n)
+
+/-- `read_response_frame` with the partial operations of its header parsing (`frame/mod.rs:150-170`): after
+`read_exact(&mut raw_header[..])` the fields are taken from `buf = &raw_header[..]` with `get_u8`, `get_u8`,
+`get_i16`, `get_u8`, `get_u32` in this order.  `FrameHdrP.parseFrameP_eq`: it is `parseFrame`, never a panic. -/
+def parseFrameP (bs : Bytes) : Outcome Header :=
+  if bs.length < HEADER_SIZE then .err "hdr.io"
+  else
+    let hdr := bs.take HEADER_SIZE
+    match bufGet 1 hdr with
+    | .panic s => .panic s
+    | .err k => .err k
+    | .ok (v, c1) =>
+      let version := beNat v
+      if version / 128 ≠ 1 then .err "hdr.fromclient"
+      else if version % 128 ≠ 4 then .err "hdr.version"
+      else match bufGet 1 c1 with
+        | .panic s => .panic s
+        | .err k => .err k
+        | .ok (fl, c2) =>
+          match bufGet 2 c2 with
+          | .panic s => .panic s
+          | .err k => .err k
+          | .ok (st, c3) =>
+            match bufGet 1 c3 with
+            | .panic s => .panic s
+            | .err k => .err k
+            | .ok (op, c4) =>
+              if !opcodeKnown (beNat op) then .err "hdr.opcode"
+              else match bufGet 4 c4 with
+                | .panic s => .panic s
+                | .err k => .err k
+                | .ok (len, _) =>
+                  let length := beNat len
+                  let rest := bs.drop HEADER_SIZE
+                  if length > rest.length + OVERSIZE_SLACK then .err "hdr.toolarge"
+                  else if rest.length < length then .err "hdr.closed"
+                  else .ok ⟨beNat fl, toSigned 16 (beNat st), beNat op, rest.take length⟩
+
 def FLAG_COMPRESSION : Nat := 0x01
 def FLAG_TRACING : Nat := 0x02
 def FLAG_CUSTOM_PAYLOAD : Nat := 0x04
